@@ -350,13 +350,8 @@ def has_clob_hazard(doc):
 
 
 def classify_doc(doc, go, why=""):
-    """known-finding class ids for property failures on the real code"""
-    if "panic" in go.split(" "):
-        if re.search(rb"null\s*\.\s*int", doc) and b"$ion_symbol_table" not in doc:
-            return "text-intvalue-on-null-int-nil-deref"
-        if b"$ion_symbol_table" in doc and b"null." in doc:
-            return "text-lst-typed-null-nil-deref"
-        return None
+    """known-finding class ids for property failures on the real code (the nil dereferences D02/D03 are fixed:
+    a panic is never a known finding any more)"""
     return None
 
 
@@ -482,6 +477,13 @@ MALFORMED = [
     b"'''''''", b"''''a'''", b"'''a''''", b"'''a'''''", b"'''a''' 'b'", b"'''a''' '''", b"'''a'''/**/'''b'''", b"'''a'''//\n'''b'''",
     b"'''a''' ''", b"'''a'' '''", b"\r\n1\r2\n\r3", b'"a\rb"', b"'''a\rb\r\nc'''", b'"a\\\r\nb"', b"1\r", b"//c\r2", b"\t1\x0b2", b"1\x0c2", b"\x00", b"1\x002",
     b"\xef\xbb\xbf1", b"\xe0\x01\x00", b"abc\xe9", b"a\x80", b"[[[[[[[[[[", b"]]]]", b"{{{{", b"}}}}", b"((((", b"[(])", b"({)}", b"{a:[}]",
+    # the repaired spots: VT/FF as whitespace and stop characters, "/*/", the lone '.', yyyyT / yyyy-mmT stop check
+    b"1\x0b", b"\x0ctrue", b"[1\x0b,\x0c2]", b"abc\x0bdef", b"1\x0b//c", b"{a\x0b:\x0c1}", b"a\x0b::\x0cb", b"(a\x0b+\x0cb)", b"null\x0b.int",
+    b"2000T\x0b1", b"1.5\x0c", b"0x1\x0b", b"+inf\x0c", b"\x27\x27\x27a\x27\x27\x27\x0b\x27\x27\x27b\x27\x27\x27", b"{{\x0baGk=\x0c}}", b"\x27a\x27\x0b\x27b\x27",
+    b"/*/ */ 1", b"/*/", b"/**/ 1", b"/* * / */ 1", b"/*/*/ 1", b"[/*/ */ 1]", b"(/*/ */)", b"1 /*/", b"/*",
+    b"(.\t1)", b"(.::true)", b"(.)", b"( . )", b"(.\n)", b"(.\x0b1)", b"(.1)", b"(a.)", b"(..)", b"(.+.)", b"[.]", b".", b". 1", b"null.", b"null.\t",
+    b"2000Ta", b"2024T0", b"2000-01T0", b"2000-01Ta", b"2000T ", b"2000T,", b"[2000T]", b"[2000T,1]", b"(2000T)", b"{a:2000-01T}", b"2000T//c", b"2000T/*c*/1",
+    b"2000T/", b"2000-01T/1", b"2000T\x27a\x27", b"2000T{", b"2000T::a", b"a::2000T",
 ]
 
 SKIP_DOCS = [
